@@ -98,6 +98,160 @@ func MapF[A, B any](in []A, fn func(A) B) []B {{
 // ConvTo converts between type parameters.
 func ConvTo[A, B Num](a A) B {{ return B(a) }}
 
+// ---- operations on type parameters that need a core type or a uniform type set (GoAtoms.tla TParamForms)
+
+// RecvLike has a core type although its terms differ in direction.
+type RecvLike interface{{ <-chan int | chan int }}
+
+// RecvLike2 lists the bidirectional channel first.
+type RecvLike2 interface{{ chan int | <-chan int }}
+
+// SendLike is the send-only counterpart.
+type SendLike interface{{ chan<- int | chan int }}
+
+// Drain ranges over and receives from a type parameter.
+func Drain[C RecvLike](c C) (n int) {{
+	for v := range c {{
+		n += v
+	}}
+	v, ok := <-c
+	if ok {{
+		n += v
+	}}
+	select {{
+	case w := <-c:
+		n += w
+	default:
+	}}
+	return n + len(c) + cap(c)
+}}
+
+// Drain2 is Drain with the terms in the other order.
+func Drain2[C RecvLike2](c C) (n int) {{
+	for v := range c {{
+		n += v
+	}}
+	return n + <-c
+}}
+
+// Fill sends to a type parameter.
+func Fill[C SendLike](c C, x int) {{
+	c <- x
+	select {{
+	case c <- x + 1:
+	default:
+	}}
+	close(c)
+}}
+
+// Bytes has no core type but allows indexing, slicing and ranging.
+type Bytes interface{{ ~[]byte | ~string }}
+
+// Count uses the byte-string operations.
+func Count[B Bytes](b B) (n int) {{
+	for i := 0; i < len(b); i++ {{
+		n += int(b[i])
+	}}
+	if len(b) > 1 {{
+		n += len(b[1:])
+	}}
+	return n + len(string(b)) + len([]byte(b))
+}}
+
+// MyInts is a named slice type.
+type MyInts []int
+
+// Slices has the core type []int.
+type Slices interface{{ []int | MyInts }}
+
+// Grow uses append, make, copy, index, slicing and range on a type parameter.
+func Grow[S Slices](s S, e int) S {{
+	s = append(s, e)
+	s = append(s, s...)
+	t := make(S, len(s), cap(s)+1)
+	copy(t, s)
+	for i, v := range t {{
+		t[i] = v + 1
+	}}
+	clear(t[:1])
+	return t[:len(t):cap(t)]
+}}
+
+// GrowE is generic in the element type.
+func GrowE[S ~[]E, E any](s S, e E) S {{
+	out := append(S(nil), s...)
+	return append(out, e)[:1]
+}}
+
+// Maps has the core type map[string]int.
+type Maps interface{{ ~map[string]int }}
+
+// Keys uses range, lookup, update, delete, clear, make and len on a type parameter.
+func Keys[M Maps](m M) (n int) {{
+	for k, v := range m {{
+		n += len(k) + v
+	}}
+	m["k"] = n
+	if v, ok := m["k"]; ok {{
+		n += v
+	}}
+	delete(m, "k")
+	mm := make(M, 1)
+	mm["a"] = m["a"]
+	clear(m)
+	return n + len(mm)
+}}
+
+// Funcs has the core type func(int) int.
+type Funcs interface{{ ~func(int) int }}
+
+// Apply calls a type parameter.
+func Apply[F Funcs](f F, x int) int {{
+	if f == nil {{
+		return x
+	}}
+	g := F(func(y int) int {{ return y }})
+	return f(x) + g(x)
+}}
+
+// PtrArr has the core type *[4]int.
+type PtrArr interface{{ *[4]int }}
+
+// SumP ranges over, indexes and slices a pointer to an array.
+func SumP[P PtrArr](p P) (n int) {{
+	for _, v := range p {{
+		n += v
+	}}
+	for i := range p {{
+		n += i
+	}}
+	return n + p[0] + len(p) + len(p[:2])
+}}
+
+// Ints converts between integer type parameters.
+type Ints interface{{ ~int | ~int64 | ~uint8 }}
+
+// Conv converts, shifts and compares.
+func Conv[A, B Ints](a A) B {{
+	if a > 3 {{
+		a <<= 1
+	}}
+	return B(a) + B(min(a, 2)) - B(max(a, 1))
+}}
+
+// Structs has the core type struct{{ A int }}.
+type Structs interface{{ struct{{ A int }} }}
+
+// Lit builds a composite literal of a type parameter.
+func Lit[S Structs](x int) S {{ return S{{A: x}} }}
+
+// PtrTo is a pointer-constrained parameter.
+func PtrTo[T any, PT interface{{ *T }}](v T) PT {{
+	p := PT(new(T))
+	*p = v
+	return p
+}}
+
 func sink(args ...interface{{}}) {{}}
 
 var seed = 1
@@ -246,6 +400,10 @@ ATOMS = {
     "calls": (False, "x = f(x)\nx = t.F(x)\nv@, err@ := two()\nsink(v@, err@)\nx = variadic()\nx = variadic(1, 2, x)\nx = variadic(xs...)\nsink(two())\nx = func(a, b int) int { return a + b }(x, 1)"),
     "generics_call": (False, "x = GenFn(x, 2)\nfl = GenFn[float64](fl, 1)\nys@ := MapF(xs, func(v int) string { return s })\ng@ := &Gen[string, int]{m: m}\nv@, ok@ := g@.Get(s)\nfl = ConvTo[int, float64](x)\nsink(ys@, v@, ok@)"),
     "generic_local": (False, "type pair@[A any] struct{ a A }\nv@ := pair@[int]{a: x}\nsink(v@.a)"),
+    "tparam_chan": (False, "cc@ := make(chan int, 1)\nif x == 4444444 {\nx = Drain(cc@) + Drain((<-chan int)(cc@)) + Drain2(cc@) + Drain2((<-chan int)(cc@))\nFill(cc@, x)\nFill((chan<- int)(cc@), x)\n}"),
+    "tparam_bytes_slice": (False, "x = Count(s) + Count([]byte(s))\nxs = Grow(xs, x)\nmi@ := Grow(MyInts(xs), 1)\nss@ := GrowE([]string{s}, s)\nsink(mi@, ss@)"),
+    "tparam_map_func": (False, "x = Keys(map[string]int{s: x})\ntype mm@ map[string]int\nx += Keys(mm@{s: 1})\nx = Apply(f, x)\ntype ff@ func(int) int\nx += Apply(ff@(f), x)"),
+    "tparam_ptr_conv": (False, "x = SumP(&arr)\nu = Conv[int, uint8](x)\nv@ := Conv[uint8, int64](u)\nl@ := Lit[struct{ A int }](x)\npt@ := PtrTo(x)\nsink(v@, l@.A, *pt@)"),
     "builtin_len_cap": (False, "x = len(xs) + cap(xs) + len(s) + len(arr) + len(m) + len(ch) + cap(ch) + len(&arr)"),
     "builtin_append_copy": (False, "xs = append(xs, 1, 2)\nxs = append(xs, xs...)\nbs@ := append([]byte(nil), s...)\nn@ := copy(xs, xs[1:])\nn@ += copy(bs@, s)\nsink(bs@, n@)"),
     "builtin_make": (False, "a@ := make([]int, x)\nb@ := make([]int, 1, 8)\nc@ := make(map[string]int)\nd@ := make(map[int]int, 4)\ne@ := make(chan int)\nf@ := make(chan T, 2)\nsink(a@, b@, c@, d@, e@, f@)"),
